@@ -20,9 +20,9 @@ from ..refmodel.declarations import V2_NAMES, table as decl_table
 
 ENGINE = "modelsim"
 BUDGET = {
-    "C02": {"quick": 4000, "thorough": 60000},
+    "C02": {"quick": 8000, "thorough": 80000},
     "C12": {"quick": 13020, "thorough": 300000},
-    "C13": {"quick": 12000, "thorough": 300000},
+    "C13": {"quick": 20000, "thorough": 300000},
 }
 DECL = decl_table("csv")
 TOL = 1e-9
